@@ -79,6 +79,49 @@ pub proof fn lemma_s_mul_nonzero(a: Scalar, b: Scalar)   //# C03.alg.s_mul_nonze
     }
 }
 
+// ---- scalar field helpers ----------------------------------------------------------------------------------
+pub proof fn lemma_s_sub_zero(a: Scalar, b: Scalar)   //# C03.alg.s_sub_zero
+    requires s_sub(a, b) == s_zero(),
+    ensures a == b,
+{
+    // a == a + (-b + b) == (a + -b) + b == 0 + b == b
+    ax_s_add_comm(s_neg(b), b);
+    ax_s_add_neg(b);
+    ax_s_add_zero(a);
+    ax_s_add_assoc(a, s_neg(b), b);
+    ax_s_add_comm(s_zero(), b);
+    ax_s_add_zero(b);
+}
+
+pub proof fn lemma_s_add_cancel_left(a: Scalar, x: Scalar, y: Scalar)   //# C03.alg.s_cancel
+    requires s_add(a, x) == s_add(a, y),
+    ensures x == y,
+{
+    // x == (-a + a) + x == -a + (a + x)
+    ax_s_add_assoc(s_neg(a), a, x);
+    ax_s_add_assoc(s_neg(a), a, y);
+    ax_s_add_comm(s_neg(a), a);
+    ax_s_add_neg(a);
+    ax_s_add_comm(s_zero(), x);
+    ax_s_add_comm(s_zero(), y);
+    ax_s_add_zero(x);
+    ax_s_add_zero(y);
+}
+
+pub proof fn lemma_s_neg_inj(a: Scalar, b: Scalar)   //# C03.alg.s_neg_inj
+    requires s_neg(a) == s_neg(b),
+    ensures a == b,
+{
+    // a == a + (-b + b) == (a + -a) + b == b   using -a == -b
+    ax_s_add_neg(a);
+    ax_s_add_comm(s_neg(b), b);
+    ax_s_add_neg(b);
+    ax_s_add_zero(a);
+    ax_s_add_assoc(a, s_neg(b), b);
+    ax_s_add_comm(s_zero(), b);
+    ax_s_add_zero(b);
+}
+
 // ---- folds -----------------------------------------------------------------------------------------------
 /// sum_{t < n} H[idx[t]] * m[t]
 pub open spec fn fold_sum(h: Seq<G1Projective>, m: Seq<Scalar>, idx: Seq<usize>, n: int) -> G1Projective {
